@@ -70,6 +70,17 @@ def replay_once(ctx, st, res, harness, env, out, summ, r, first, procs):
         res["evaluations"] = 0
         return True
     if not os.path.exists(summ):
+        # the replay process died. A verdict about the code only if the Go runtime aborted it ("fatal error: ...", e.g. out of
+        # memory) while the faulting goroutine was executing the library, not the harness
+        m = re.search(r"fatal error: ([^\n]*)\n(?:.*\n)*?goroutine \d+[^\n]*\[running[^\]\n]*\]:\n((?:.*\n){1,40})", p.stderr)
+        frames = [l for l in (m.group(2).split("\n") if m else []) if l and not l.startswith("\t")]
+        user = [f for f in frames if not f.startswith("runtime.") and not f.startswith("internal/")]
+        if m and user and user[0].startswith("github.com/advancedclimatesystems/gonnx"):
+            path = os.path.join(ctx["replaydir"], "%s-fatal-%s.txt" % (ctx["pid"], st["name"]))
+            open(path, "w").write(p.stderr[-20000:])
+            res["violations"].append(dict(replay=path, why="the Go runtime aborted the process while it was executing the library: fatal error: %s (in %s)" % (m.group(1), user[0][:120])))
+            res["evaluations"] = res.get("evaluations", 0)
+            return True
         res["infra"].append("harness replay produced no summary: " + p.stdout[-2000:] + p.stderr[-2000:])
         return True
     s = json.load(open(summ))
@@ -178,10 +189,17 @@ def run_trace(ctx, st):
         res["violations"].append(dict(replay=path, why="the Go race detector reported a data race during the free-running stress: " +
                                       " ".join(p.stderr.split("\n")[:12])[:600]))
         return res
+    if p.returncode == 3 and "HUNG:" in p.stderr:
+        # the recorder's watchdog: concurrent Runs that never return (a deadlock) - conclusive at once
+        path = os.path.join(ctx["replaydir"], "%s-hung-%s.txt" % (ctx["pid"], st["name"]))
+        open(path, "w").write(p.stderr[-60000:])
+        first = [l for l in p.stderr.splitlines() if l.startswith("HUNG:")][0]
+        res["violations"].append(dict(replay=path, why="concurrent Runs do not return: " + first[:300]))
+        return res
     if p.returncode != 0 and "fatal error:" in p.stderr:
         # the Go runtime aborted the recorder (e.g. "concurrent map read and map write"): a verdict about the code only if the
         # faulting goroutine was executing the library, not the harness
-        m = re.search(r"fatal error: ([^\n]*)\n(?:.*\n)*?goroutine \d+ \[running\]:\n((?:.*\n){1,40})", p.stderr)
+        m = re.search(r"fatal error: ([^\n]*)\n(?:.*\n)*?goroutine \d+[^\n]*\[running[^\]\n]*\]:\n((?:.*\n){1,40})", p.stderr)
         frames = [l for l in (m.group(2).split("\n") if m else []) if l and not l.startswith("\t")]
         user = [f for f in frames if not f.startswith("runtime.") and not f.startswith("internal/")]
         if m and user and user[0].startswith("github.com/advancedclimatesystems/gonnx"):
